@@ -111,6 +111,10 @@ class Prop:
         Return None if fine, else a short string saying what is violated."""
         return None
 
+    def normalize_model(self, case, answers):
+        """Project the model's answers onto what is compared with the implementation."""
+        return answers
+
     def classify(self, case) -> str:
         return case.get("kind", "?")
 
@@ -204,7 +208,7 @@ def evaluate(prop, cases, have_model=True):
             diffs.append((None, f"model driver failed: {e}"))
         if answers is not None:
             for i, (a, b) in enumerate(spans):
-                model_ans[i] = canon(answers[a:b])
+                model_ans[i] = canon(prop.normalize_model(cases[i], answers[a:b]))
                 if model_ans[i] != impl[i]:
                     diffs.append((i, "model and implementation differ"))
     failures = []
